@@ -175,6 +175,64 @@ def run_trees(chk, n):
                 chk.violation("impl-violates-spec", "trees", pl["program"], impl=pl["real"], note=" || ".join(pl["source"]))
 
 
+def run_real_ids(chk, n):
+    """(real code, the library's own id generator — everywhere else ids are made sequential) ids are distinct across all
+    instances of a page whatever user code does with process-global state in between: components whose
+    get_context_data re-seeds the `random` module with a value used before (seeded/C14-5: ids drawn from the seedable
+    global generator repeat).  Model-free reading: the render ids of the markers and the ids Component.id reported."""
+    import random as _random
+    import re as _re
+    from django.template import Context, Template
+    from django_components import Component, registry
+
+    tplgen.unpatch_ids()
+    try:
+        for i in range(n):
+            r = core.rng(PROP, "real-ids", i)
+            seeds = [r.randrange(3) for _ in range(r.randint(4, 9))]
+            reported = []
+
+            class _Leaf(Component):
+                template = "<i>{{ k }}</i>"
+
+                def get_context_data(self, k=0):
+                    _random.seed(k)                       # user code: a stable pseudo-random choice per key
+                    reported.append(self.id)
+                    return {"k": _random.choice("abc")}
+
+            class _Row(Component):
+                template = "<b>{% component 'c14rid_leaf' k=k / %}</b>{% component 'c14rid_leaf' k=k / %}"
+
+                def get_context_data(self, k=0):
+                    reported.append(self.id)
+                    return {"k": k}
+
+            registry.register("c14rid_leaf", _Leaf)
+            registry.register("c14rid_row", _Row)
+            try:
+                src = "{% for k in ks %}{% component 'c14rid_row' k=k / %}{% endfor %}"
+                try:
+                    out = str(Template(src).render(Context({"ks": seeds})))
+                    err = None
+                except Exception as e:  # noqa
+                    out, err = "", type(e).__name__
+            finally:
+                registry.unregister("c14rid_leaf")
+                registry.unregister("c14rid_row")
+                tplgen.clear_census()
+            chk.count("real-ids", 1, validated=1)
+            ids = [m.group(2) for m in tplgen.MARKER_RE.finditer(out)]
+            chk.nontrivial(("real-ids", i))
+            if err or len(set(ids)) != len(ids) or len(set(reported)) != len(reported) or len(ids) != 3 * len(seeds):
+                chk.violation("impl-violates-spec", "real-ids", {"template": src, "ks": seeds,
+                              "user_code": "get_context_data calls random.seed(k) for the key k it was given"},
+                              impl={"error": err, "marker_ids": ids, "reported_ids": reported},
+                              spec="ids are distinct across all instances on a page (3 instances per key)")
+                return
+    finally:
+        tplgen.patch_ids()
+
+
 THREAD_GATED = ("django_components/component.py",)
 
 
@@ -230,6 +288,7 @@ def run(tier: str) -> int:
     run_depth(chk, [3, 50, 500] if tier == "quick" else [3, 50, 500, 2000])
     run_depth(chk, [3, 1100] if tier == "quick" else [3, 50, 1100, 2000], looped=True)
     run_threads(chk, 12 if tier == "quick" else 120, 6 if tier == "quick" else 12)
+    run_real_ids(chk, 20 if tier == "quick" else 300)
     chk.assumptions += [
         "templates produce well-nested elements (elements are AST nodes); no void / self-closing elements; "
         "set_html_attributes (Rust) is modelled on the token form and differentially tested here through the real render",
